@@ -23,7 +23,7 @@ from ..linform import linform
 from ..pm import dotted, unparse, walk_no_nested
 from ..report import Ctx
 from .c05 import (LDT, BoolSym, CallSym, Carried, CmpSym, ElemSym, Init, RangeSym, SliceSym, SubSym, Sym, called, lin_of, lin_sub, parts, path_of,
-                  run_block, sym_env)
+                  cover, declare, run_block, sym_env)
 
 NULL_AWARE = {"ne_missing", "eq_missing"}
 
@@ -111,7 +111,10 @@ def _columns_in(v) -> list:
 def _interpret(ctx: Ctx, short: str, watch=()):
     fi = ctx.pm.func(short)
     dt = LDT(ctx.pm, watch=set(watch) | {"with_columns", "append"})
-    return fi, dt, run_block(dt, fi.node.body, sym_env(fi), fi)
+    leaves = run_block(dt, fi.node.body, sym_env(fi), fi)
+    declare(ctx)
+    cover(ctx, short + " (whole body, loops: one generic iteration)", leaves)
+    return fi, dt, leaves
 
 
 def _built(leaves) -> list:
@@ -497,6 +500,14 @@ def check(ctx: Ctx) -> None:
         "original_df[col][page start] at the row equal to that page start for the same column; R13.5 validate_data_sorting dominates suppression, raises ValueError, and "
         "is applied once to the whole table; R13.6 contiguity key of level i = levels[:i+1], separator-joined and null-filled.")
     ctx.assume("polars: a shifted column always contains a null; != with null yields null; ne_missing treats null as a value")
+    ctx.assume("R13.2-R13.4 judge the data-frame EXPRESSIONS built by the functions (terms such as when(c).then(x).otherwise(y).alias(n)), not their evaluation by polars: "
+               "polars operators are uninterpreted function symbols")
+    ctx.assume("R13.4 guard on the page index: only a single comparison `index OP integer constant` is accepted (anything else: gap / violation 'guard missing'); such a "
+               "predicate over the naturals is monotone or a point predicate, so its values at 0, 1 and 2 determine it everywhere: False at 0 and True at 1 and 2 force "
+               "it to be equivalent to index >= 1 (7 is a redundant extra point); this is an exact decision, not a sample")
+    ctx.assume("R13.4 page start indices: the accumulator is judged on one generic iteration (entry value of the accumulator symbolic, its initial value before the loop "
+               "read separately): appended value = accumulator before this page, accumulator' = accumulator + p.data.height; with initial value 0 this is the inductive "
+               "definition of the cumulative heights")
     ctx.undecided("equality of the down-filled column with the input for concrete frames")
     r13_1(ctx)
     r13_2_3(ctx)
